@@ -2,7 +2,7 @@ SPECIFICATION Spec
 CONSTANTS
   T0 = 1000
   MaxTicks = 3
-  Deep = TRUE
+  Groups = {"str", "strdeep", "list"}
 VIEW View
 ACTION_CONSTRAINT Emit
 INVARIANT NotBefore
